@@ -19,7 +19,7 @@ type C09Case struct {
 }
 
 func GenC09() *rapid.Generator[C09Case] {
-	sg := genScenario(ScenarioCfg{MaxEpochs: pick(20, 45), FitnessKinds: []string{"constant", "uniform", "heavy", "dominant", "distinct", "stagnating", "sparse", "genome"},
+	sg := genScenario(ScenarioCfg{MaxEpochs: pick(20, 45), FitnessKinds: []string{"constant", "uniform", "heavy", "dominant", "distinct", "stagnating", "sparse", "genome", "signed"},
 		Parallel: 0, MinPop: 4, DupIds: true})
 	return rapid.Custom(func(t *rapid.T) C09Case {
 		c := C09Case{Sc: sg.Draw(t, "scenario"), Step: rapid.SampledFrom([]string{"A", "A", "B", "B", "C"}).Draw(t, "terminal step")}
@@ -232,6 +232,12 @@ func checkSharedFitness(orgs []*genetics.Organism, pre map[*genetics.Organism]or
 		if o.VerifOriginalFitness() != p.raw {
 			return fmt.Errorf("organism %d: the remembered original fitness is %v, it was evaluated to %v", i, o.VerifOriginalFitness(), p.raw)
 		}
+		if p.raw < 0 {
+			// the statement does not say what a negative value is adjusted to (the library substitutes a small positive constant);
+			// whatever it is, the expected offspring, the quotas and their total are judged from it like from any other value
+			rec.Class("organism with a negative raw fitness")
+			continue
+		}
 		if p.raw == 0 {
 			if o.Fitness != 0 {
 				return fmt.Errorf("organism %d had fitness 0 and has the adjusted fitness %v", i, o.Fitness)
@@ -279,15 +285,25 @@ func checkParentSelection(species []*genetics.Species, pre map[*genetics.Organis
 			want = n
 		}
 		var parents, rest []float64
+		negative := false
+		for _, o := range all {
+			negative = negative || pre[o].raw < 0
+		}
 		for _, o := range all {
 			isParent := !o.VerifToEliminate()
 			if kept != nil {
 				isParent = kept[o]
 			}
+			f := pre[o].raw
+			if negative {
+				// negative values are replaced during the adjustment: the ranking the library can be held to is the one by the
+				// adjusted values (for non-negative values both rankings agree, the adjustment multiplies by one species-wide factor)
+				f = o.Fitness
+			}
 			if isParent {
-				parents = append(parents, pre[o].raw)
+				parents = append(parents, f)
 			} else {
-				rest = append(rest, pre[o].raw)
+				rest = append(rest, f)
 			}
 		}
 		if len(parents) != want {
